@@ -1275,6 +1275,15 @@ class KInterp:
             opn = 'lshr' if m.group(2) == 'r' else 'shl'
             k64 = const(k.cval(), 64)
             return s.vmap(st, ins.dst, [v], lambda case, x: s._shift1(case, opn, x, k64), len(v))
+        m = re.match(r'llvm\.u(add|sub)\.with\.overflow\.i(32|64)$', name)
+        if m:
+            # {result mod 2^w, carry / borrow}: partitioned on the flag, like the hardware adc/sbb idioms
+            w = int(m.group(2))
+            x = s.tokv(c_ := st.case, s.resolve(st.case, args[0]))
+            y = s.tokv(c_, s.resolve(c_, args[1]))
+            f = wrap_add if m.group(1) == 'add' else wrap_sub
+            alts = [(c2, [r, bool(k)]) for c2, r, k in f(c_, x, y, w)]
+            return s.setv(st, ins.dst, alts)
         if name.startswith('llvm.memcpy.'):
             dstp, srcp, n = args[0], args[1], args[2]
             if not (isinstance(dstp, KPtr) and isinstance(srcp, KPtr) and isinstance(n, KV) and n.isconst()):
